@@ -6,6 +6,7 @@ import Driver.Pac
 import Driver.Replay
 import Driver.Net
 import Driver.Conf
+import Driver.CCache
 
 open Driver
 
@@ -22,6 +23,7 @@ def dispatch (line : String) : String :=
       else if op.startsWith "rc." then Replay.handle op args
       else if op.startsWith "net." then Net.handle op args
       else if op.startsWith "conf." then Conf.handle op args
+      else if op.startsWith "cc." then CCache.handle op args
       else none
     match r with
     | some s => s
